@@ -263,7 +263,7 @@ def gen_domain_cases(ctx) -> List[Tuple[str, List[Tuple[str, bytes]], List[Tuple
                    ("Delete", k1), ("ListDir", d), ("Exists", k1), ("Size", k2), ("Read", k1), ("Read", k2), ("Mtime", k1)]
             cases.append((pfx, F, ops))
     # random
-    for _ in range(700 if ctx.tier == "quick" else 2500):
+    for _ in range(500 if ctx.tier == "quick" else 2500):
         pfx, F = rng.choice(PREFIXES)
         ops = []
         for _ in range(rng.randint(1, 25)):
@@ -709,7 +709,7 @@ def oracle_range(ctx) -> None:
             progs += [tuple(rng.choice(al) for _ in range(4)) for _ in range(30000)]
         if ctx.tier == "quick":
             al = range_alphabet(size)
-            progs += [tuple(rng.choice(al) for _ in range(4)) for _ in range(4000 if size != BIG else 1500)]
+            progs += [tuple(rng.choice(al) for _ in range(4)) for _ in range(3000 if size != BIG else 1500)]
         if size == BIG and ctx.tier == "quick":
             progs = rng.sample(progs, 5000)
         for buffered in (False, True):
@@ -1069,16 +1069,27 @@ def run(ctx) -> None:
     ctx.proofs(THEOREMS, gen_files=["GenS3.v"])
     ctx.allow_axioms([])
     # ---- implementation-only oracles (run even when the proofs are broken)
+    import time as _time
+    timings: Dict[str, float] = {}
+
+    def phase(name: str, fn, *a) -> Any:
+        t0 = _time.time()
+        try:
+            return fn(*a)
+        finally:
+            timings[name] = round(_time.time() - t0, 1)
+            ctx.stats["phase_wall_s"] = timings
+
     cases = gen_domain_cases(ctx)
-    impl_obs = oracle_backends(ctx, cases)
-    oracle_range(ctx)
-    oracle_s3_faults(ctx)
+    impl_obs = phase("oracle_backends", oracle_backends, ctx, cases)
+    phase("oracle_range", oracle_range, ctx)
+    phase("oracle_s3_faults", oracle_s3_faults, ctx)
     try:
-        oracle_and_corr_retry(ctx, vs)
-        corr_backends(ctx, cases, impl_obs)
-        corr_raw(ctx)
-        corr_kernels(ctx)
-        corr_range(ctx)
+        phase("retry", oracle_and_corr_retry, ctx, vs)
+        phase("corr_backends", corr_backends, ctx, cases, impl_obs)
+        phase("corr_raw", corr_raw, ctx)
+        phase("corr_kernels", corr_kernels, ctx)
+        phase("corr_range", corr_range, ctx)
     except RuntimeError as e:
         ctx.proof_problems.append("model evaluation failed: " + str(e)[:800])
 
